@@ -796,6 +796,7 @@ func main() {
 		defer wg.Done()
 		if only != "net" {
 			runLibrary(nLib)
+			runLibrary386(run.N(60000, 2000000))
 		}
 	}()
 	wg.Wait()
@@ -809,10 +810,11 @@ func main() {
 			os.Exit(2)
 		}
 	}
-	run.Count("cases", run.Get("net.messages_dispatched")+run.Get("lib.calls"))
+	run.Count("cases", run.Get("net.messages_dispatched")+run.Get("lib.calls")+run.Get("lib386.calls"))
 	run.Assume("the main loop is replaced by minimal consumers: NetTxs elements go through txpool.HandleNetTx, NetBlocks elements are dropped (block connection is not part of this property)")
 	run.Assume(fmt.Sprintf("children run under RLIMIT_AS=%d GiB: a message that makes the node request more in one allocation counts as a crash", addrSpaceCap>>30))
 	run.Assume("time-driven paths (ping every 15 s, header/block timeouts, peer dropping) are not reached: scripts finish within milliseconds")
+	run.Assume("32-bit coverage is library-only (client/txpool does not compile for GOARCH=386): script walkers, sigop counters, templates, interpreter, tx/block decoders, key/signature/address parsers in the x386 worker")
 	run.Assume("hang oracle: per-script watchdog, a violation only when reproduced 3/3 alone with the same handler on the stack")
 	os.RemoveAll(tmp)
 	run.Finish("each case = one framed message dispatched by the real OneConnection.Run() (or one library parser call) on hostile bytes, followed by panic-banner / early-return / lock / liveness probes; distinct_nontrivial = distinct (command, mutation family, before/after handshake) triples actually dispatched plus distinct (entry point, mutation family) pairs",
